@@ -34,6 +34,11 @@ THEOREMS = [
     'CpProofs.C15.C15_invalidate_methods',
     'CpProofs.C15.C15_get_head_not_invalidating',
     'CpProofs.C15.C15_pragma_no_cache',
+    'CpProofs.C15.C15_cc_no_cache',
+    'CpProofs.C15.C15_uriKey_collision',
+    'CpProofs.C15.C15_uriKey_injective_partial',
+    'CpProofs.C15.C15_sweep_by_names_leaks',
+    'CpProofs.C15.C15_sweep_by_names_undercounts',
     'CpProofs.C15.C15_size_bounds',
     'CpProofs.C15.C15_stored_objects',
 ]
